@@ -175,3 +175,28 @@ prop('C07',
      rule='8 history kinds (first use, growth, refresh, stale, bad proof, fork, same-size fork, bad signature) x 16 interface-level fault sets (every single and pairs of WriteOps/GetLatest/Set/Close/signer failures) on the in-memory and the file-backed SQLite store, x 8-11 SQL-driver-level fault sets (begin, query, exec, commit, rollback and pairs) through a wrapping database/sql driver with the production pool size; each followed by fault-free reads (3 s deadline) and an honest continuation step; storage-call script, verdict, returned bytes and state compared with the model; non-trivial = a fault was injected',
      assumptions=['injected driver failures are clean (a failed COMMIT rolls back, as go-sqlite3 does)', 'the deadline is a runtime observation'],
      exhaustive=True)
+
+prop('C05',
+     modules=['WitnessVerif.Props.C05'],
+     scenarios=lambda tier: [sc('conc')],
+     diverge={'U': {'accept', 'post'}},
+     nontrivial_line=lambda k, line: k == 'LIN',
+     rule='controlled schedules: every goroutine is parked before each storage call (wrapper around LogStatePersistence) and released by a scheduler; depth-first enumeration of all interleavings of 2 requests (and of 3 requests, bounded in the quick tier) for conflicting first use, first-use fork, forks from the same old size, growth vs refresh, growth vs growth, different logs, update vs read, on the in-memory store and on file-backed SQLite through database/sql with the production pool size (blocked Begin = thread in flight); plus free-running rounds of 6-9 goroutines; monitor: a sequential order compatible with real time exists in which the model of the sequential witness gives every request its outcome (storage errors only for overlapping writes, no effect), final state = replayed state; non-trivial = one LIN record per execution',
+     assumptions=['atomicity of a single storage call (Go mutex / SQLite locking) and the Go memory model are runtime facts, exercised only'],
+     exhaustive=True)
+
+prop('C04',
+     modules=['WitnessVerif.Props.C04'],
+     scenarios=lambda tier: hist_scenarios(tier, exh_q=2, exh_t=4),
+     diverge={'U': {'accept', 'ret', 'post', 'oracle'}},
+     nontrivial=lambda u: u.get('err') == 'none',
+     rule='every accepted Update of the history scenarios (first use, growth, same-size refresh; extension lines, extra known/unknown signature lines, stale and forged lines in the witness name, padding up to the 100-line limit; witness key sets of 1-3 legacy Ed25519 / cosignature-v1 keys; in-memory, SQLite :memory:, SQLite file): returned bytes compared byte-for-byte with the model (signature bytes taken from the real signers), independently verified (plain ed25519 over the reconstructed cosignature/v1 message), timestamp within the call window, read-after-update; non-trivial = accepted update',
+     assumptions=['wall-clock time is an input (window measured around the call)'])
+
+prop('C08',
+     modules=['WitnessVerif.Props.C08'],
+     scenarios=lambda tier: hist_scenarios(tier, exh_q=2, exh_t=4, hist_q=60, hist_t=600) + [sc('lib')],
+     diverge={'U': {'accept', 'oracle'}, 'VC': None},
+     nontrivial=lambda u: u.get('probe') == '1',
+     rule='after every generated history (accepted and refused requests, forgeries, extension lines, up to 100 signature lines, first checkpoint of size 0) an honest probe is sent for each log: the log-signed checkpoint with just the log line, size >= stored size (explicit trees to 20, virtual trees growing by up to 2^40), old size = stored size, the RFC 6962 proof from the harness own implementation; VerifyConsistency compared with the model on all (m, n) with n <= 40 (300 thorough) and on sampled sizes to 2^63; non-trivial = probe records',
+     assumptions=['F2 (stored size 0) is a known finding pinned by the test suite'])
